@@ -103,6 +103,11 @@ def cases():
         {"sims": [{"sid": "Sa", "type": "time-based", "reuse": True}, {"sid": "Sb", "type": "time-based", "reuse": True}],
          "transport": "local", "conns": [{"src": "Sa", "dst": "Sb", "sa": "p", "da": "i", "shift": 1, "init": True}], "until": 4},
         _tb(["Sa", "Sb"]))
+    # ... the same behind mosaik's adapter for API version 2.2 (the simulator object is wrapped, not a LocalProxy any more)
+    add("reused_output_dict_old_api", ["C03", "C04"],
+        {"sims": [{"sid": "Sa", "type": "time-based", "reuse": True, "api": "2.2"}, {"sid": "Sb", "type": "time-based", "reuse": True}],
+         "transport": "local", "conns": [{"src": "Sa", "dst": "Sb", "sa": "p", "da": "i", "shift": 1, "init": True}], "until": 4},
+        _tb(["Sa", "Sb"]))
     # D9: time-based simulator returning no next step
     add("tb_returns_none", ["C13"],
         {"sims": [{"sid": "Sa", "type": "time-based"}, {"sid": "Sb", "type": "time-based"}],
